@@ -130,6 +130,28 @@ def coq_make(targets, timeout=1500):
         return rc, out
 
 
+def private_build(priv, targets, timeout=5400):
+    """Copy the .v sources of the development to `priv` and build `targets` there from nothing."""
+    shutil.rmtree(priv, ignore_errors=True)
+    files = []
+    for d, _, fs in os.walk(COQ):
+        for f in fs:
+            if f.endswith(".v"):
+                rel = os.path.relpath(os.path.join(d, f), COQ)
+                if rel.startswith("."):
+                    continue
+                files.append(rel)
+                os.makedirs(os.path.join(priv, os.path.dirname(rel)), exist_ok=True)
+                shutil.copyfile(os.path.join(COQ, rel), os.path.join(priv, rel))
+    files.sort()
+    with open(os.path.join(priv, "_CoqProject"), "w") as f:
+        f.write("-Q . Verif\n-arg -w -arg -notation-overridden,-deprecated-hint-without-locality,-deprecated-instance-without-locality\n" + "\n".join(files) + "\n")
+    rc, out = sh(["coq_makefile", "-f", "_CoqProject", "-o", "Makefile"], cwd=priv, timeout=120)
+    if rc != 0:
+        return rc, out
+    return sh(["make", "-j%d" % NPROC] + list(targets), cwd=priv, timeout=timeout)
+
+
 def coqc_file(path, timeout=600, out_vo=None):
     cmd = ["coqc", "-Q", COQ, "Verif", "-w", "-notation-overridden"]
     if out_vo:
@@ -460,11 +482,15 @@ def do_check(pid, tier, replay):
         # 2. proofs
         jt = prop.JUDGE.replace(".", "/") + ".vo"
         targets = [prop.COQ_PROPS + "o", jt]
+        priv = None
+        priv_err = None
         if tier == "thorough":
-            with Lock("coq"):
-                coq_project()
-                sh(["make", "clean"], cwd=COQ, timeout=300)
-            coq_make(None, timeout=3600)
+            # from-scratch rebuild of everything the property depends on, in a private copy of the
+            # sources (nothing of the shared tree is deleted: other checks may be using its .vo files)
+            priv = os.path.join(workdir, "coqfull")
+            rc_p, out_p = private_build(priv, targets)
+            if rc_p != 0:
+                priv_err = "clean rebuild of %s failed:\n%s" % (" ".join(targets), out_p[-2000:])
         rc_j, out_make = coq_make([jt])
         judge_ok = rc_j == 0
         coq_make([prop.COQ_PROPS + "o"])
@@ -476,12 +502,15 @@ def do_check(pid, tier, replay):
         elif forbidden:
             proof_broken = "forbidden constructs in the development: " + "; ".join(forbidden[:5])
         coqchk_out = None
-        if tier == "thorough" and pinfo["rc"] == 0 and getattr(prop, "COQCHK", True):
+        if priv_err and not proof_broken:
+            proof_broken = priv_err
+        if tier == "thorough" and pinfo["rc"] == 0 and not priv_err and getattr(prop, "COQCHK", True):
             lib = "Verif." + prop.COQ_PROPS[:-2].replace("/", ".")
-            with Lock("coq"):
-                rc_chk, coqchk_out = sh(["coqchk", "-silent", "-o", "-Q", COQ, "Verif", lib], cwd=COQ, timeout=5400)
+            rc_chk, coqchk_out = sh(["coqchk", "-silent", "-o", "-Q", priv, "Verif", lib], cwd=priv, timeout=5400)
             if rc_chk != 0:
                 proof_broken = "coqchk rejected %s: %s" % (lib, coqchk_out[-1500:])
+        if priv:
+            shutil.rmtree(priv, ignore_errors=True)
 
         # 3. driver
         rc_b, out_b = build_driver(prop.DRIVER)
